@@ -11,7 +11,11 @@ ev = encoded Python value:  ["n"] None | ["b", bool] | ["i", int] | ["f", float.
   ["l", [ev, ...]] list | ["j", json_text] a dict given by its JSON text | ["o", class, repr, truthy] anything else.
 Two encoded values are equal iff the Python values have the same class and compare equal (Decimal by numeric value,
 floats by bits).  A column with "same_as": i is the very same Python object as column i (listed twice in the schema; its
-kw is a copy of column i's).  Column names within a schema may repeat (self-join, a column selected twice).  A focus case asks only for the one attribute a finding guards; every other case compares every
+kw is a copy of column i's).  Column names within a schema may repeat (self-join, a column selected twice).  A case may carry "steps": operations performed AFTER the single-shot observations, on the same live objects
+(schema: ["col_set", o, field, ev] obj_o.field = v | ["col_append", o, field, ev] obj_o.field.append(v) | ["top_set", attr, ev] |
+["top_append", ev] schema.aliases.append(v) | ["list_append", o] schema.columns.append(obj_o) | ["list_pop"] | ["scribble"] the caller
+appends to the lists of the dictionary returned last | ["round"] to_dict + from_dict | ["json", o] to_json + from_json of obj_o;
+flat: ["set", field, ev] | ["append", field, ev] | ["flatten"]); o is the position of the object's first listing.  A focus case asks only for the one attribute a finding guards; every other case compares every
 other attribute."""
 import dataclasses
 import importlib
@@ -428,6 +432,28 @@ def _observe_flat(case, S, T):
         return {"cls": type(f).__name__, "attrs": _attrs(f)}
 
     obs["flat"] = _try(flat)
+    if case.get("steps"):
+        obs["steps"] = []
+        for st in case["steps"]:
+            o = None
+            try:
+                if st[0] == "set":
+                    setattr(c, st[1], dec(st[2]))
+                elif st[0] == "append":
+                    getattr(c, st[1]).append(dec(st[2]))
+                elif st[0] == "flatten":
+                    before = _attrs(c)
+                    fl = _try(flat)
+                    o = {"before": before, "flat": fl, "cur": _attrs(c)}
+                    obs["parse"] += _parse_entries(T, c, [c.default], flat=True)
+                else:
+                    raise ValueError("C16: unknown step %r" % (st,))
+            except ValueError:
+                raise
+            except Exception as e:       # a mutating step raised: the session is not one the model describes
+                o = {"error": _exn(e)}
+            obs["steps"].append(o)
+        obs["parse"] = _dedupe(obs["parse"])
     return obs
 
 
@@ -502,6 +528,7 @@ def _observe_schema(case, S, T, orjson):
     obs["parse"] = _dedupe(obs["parse"])
     if any(c is None for c in cols):
         return obs
+    objs = list(cols)          # position -> object; the schema gets its own list (steps may grow / shrink it)
     sk = dict(name=dec(case["name"]), aliases=dec(case["aliases"]), columns=cols, primary_key=dec(case["pk"]))
     for n, v in zip(("row_count_metric", "row_count_estimate", "data_size_metric", "data_size_estimate"), case["stats"]):
         sk[n] = dec(v)
@@ -535,7 +562,113 @@ def _observe_schema(case, S, T, orjson):
         for rec in case.get("records", []):
             r = {k: dec(v) for k, v in rec}
             obs["validate"].append([_validate_outcome(s, dict(r)), _validate_outcome(restored, dict(r))])
+    if case.get("steps"):
+        _run_schema_steps(case, obs, s, objs, S, T, orjson)
     return obs
+
+
+def _canon(objs, c):
+    for i, x in enumerate(objs):
+        if x is c:
+            return i
+    return -1
+
+
+def _run_schema_steps(case, obs, s, objs, S, T, orjson):
+    """the operations of a session, on the live schema object `s` and the live column objects `objs`"""
+    obs["refs"] = [_canon(objs, c) for c in objs]
+    obs["steps"] = []
+    last = None
+    for st in case["steps"]:
+        k, o = st[0], None
+        try:
+            if k == "col_set":
+                setattr(objs[st[1]], st[2], dec(st[3]))
+            elif k == "col_append":
+                getattr(objs[st[1]], st[2]).append(dec(st[3]))
+            elif k == "top_set":
+                setattr(s, st[1], dec(st[2]))
+            elif k == "top_append":
+                s.aliases.append(dec(st[1]))
+            elif k == "list_append":
+                s.columns.append(objs[st[1]])
+            elif k == "list_pop":
+                s.columns.pop()
+            elif k == "scribble":
+                if last is not None:          # the returned dictionary belongs to the caller
+                    last["name"] = "scribbled"
+                    if type(last.get("aliases")) is list:
+                        last["aliases"].append("scribbled")
+                    for cd in last.get("columns", []):
+                        if type(cd) is dict and type(cd.get("aliases")) is list:
+                            cd["aliases"].append("scribbled")
+                            cd["nullable"] = not cd.get("nullable")
+                    last["columns"].append({"name": "scribbled"})
+            elif k == "round":
+                o = _observe_round(case, s, objs, S, T)
+                last = o.pop("raw", None)
+                obs["parse"] += o.pop("parse")
+            elif k == "json":
+                o = _observe_json(objs[st[1]], S, T, orjson)
+                obs["parse"] += o.pop("parse")
+            else:
+                raise ValueError("C16: unknown step %r" % (st,))
+        except ValueError:
+            raise
+        except Exception as e:           # a mutating step raised: the session is not one the model describes
+            o = {"error": _exn(e)}
+        obs["steps"].append(o)
+    obs["parse"] = _dedupe(obs["parse"])
+
+
+def _observe_round(case, s, objs, S, T):
+    o = {"top": [[f.name, enc(getattr(s, f.name))] for f in dataclasses.fields(S.RelationSchema) if f.name != "columns"],
+         "cols": [_attrs(c) for c in s.columns], "refs": [_canon(objs, c) for c in s.columns], "parse": [], "raw": None}
+
+    def todict():
+        d = s.to_dict()
+        o["raw"] = d
+        out = {"keys": list(d.keys()), "top": [[k, enc(v)] for k, v in d.items() if k != "columns"], "columns": []}
+        for cd in d["columns"]:
+            out["columns"].append([[k, enc(v)] for k, v in cd.items()])
+            o["parse"] += _parse_entries(T, _base(S.FlatColumn, cd, {}), [cd.get("default")])
+        return out
+
+    o["dict"] = _try(todict)
+    restored = None
+
+    def rest():
+        nonlocal restored
+        restored = S.RelationSchema.from_dict(s.to_dict())
+        return {"top": [[f.name, enc(getattr(restored, f.name))] for f in dataclasses.fields(S.RelationSchema) if f.name != "columns"],
+                "cols": [{"cls": type(c).__name__, "attrs": _attrs(c)} for c in restored.columns],
+                "eq": bool(restored == s)}
+
+    o["restored"] = _try(rest)
+    if restored is not None:
+        o["desc"] = [_description(s), _description(restored)]
+        o["validate"] = []
+        for rec in case.get("records", []):
+            r = {k: dec(v) for k, v in rec}
+            o["validate"].append([_validate_outcome(s, dict(r)), _validate_outcome(restored, dict(r))])
+    return o
+
+
+def _observe_json(c, S, T, orjson):
+    o = {"cur": _attrs(c), "parse": []}
+    o["json"] = _try(lambda: enc_json(orjson.loads(c.to_json())))
+
+    def backf():
+        back = S.FlatColumn.from_json(c.to_json())
+        return {"cls": type(back).__name__, "attrs": _attrs(back), "eq": bool(back == c)}
+
+    o["back"] = _try(backf)
+    try:
+        d = orjson.loads(c.to_json())
+        o["parse"] += _parse_entries(T, _base(S.FlatColumn, d, {}), [d.get("default")])
+    except Exception:
+        pass
+    return o
 
 
 # ----------------------------------------------------------------------------------------------
@@ -690,7 +823,80 @@ def _eq_expected(attrs):
     return _col_skips(attrs) == NOT_COMPARED and not _has_object_expectation(attrs)
 
 
+def _round_why(top, cols, d, r):
+    """to_dict / from_dict of a schema whose current attributes are `top` and whose current columns are `cols`"""
+    if d[0] != "ok":
+        return "to_dict raised %s" % d[1]
+    if r[0] != "ok":
+        return "from_dict(to_dict(schema)) raised %s" % r[1]
+    r = r[1]
+    bad = _diff(top, r["top"], set())
+    if bad:
+        return "the restored schema must equal the schema in its own attributes: " + "; ".join(bad)
+    if len(r["cols"]) != len(cols):
+        return "the restored schema has %d columns, the schema %d" % (len(r["cols"]), len(cols))
+    for i, (a, rc) in enumerate(zip(cols, r["cols"])):
+        if rc["cls"] != "FlatColumn":
+            return "column %d restored as %s" % (i, rc["cls"])
+        bad = _diff(a, rc["attrs"], _col_skips(a))
+        if bad:
+            return "from_dict(to_dict(schema)): column %d must equal the schema's column in every declared attribute: %s" % (i, "; ".join(bad))
+    if all(_eq_expected(a) for a in cols) and not r["eq"]:
+        return "from_dict(to_dict(schema)) == schema is False"
+    return None
+
+
+def _json_why(a, o):
+    if _json_unfaithful(a):
+        return None                      # F-C16-10 value classes: compared only by the json_leaf cases
+    if o["json"][0] != "ok" or o["back"][0] != "ok":
+        return "to_json / from_json raised %s" % ((o["json"] if o["json"][0] != "ok" else o["back"])[1])
+    b = o["back"][1]
+    if b["cls"] != "FlatColumn":
+        return "from_json gave a %s" % b["cls"]
+    bad = _diff(a, b["attrs"], _col_skips(a))
+    if bad:
+        return "from_json(to_json(column)) must equal the column in every declared attribute: " + "; ".join(bad)
+    if _eq_expected(a) and not b["eq"]:
+        return "from_json(to_json(column)) == column is False"
+    return None
+
+
+def _steps_why(case, obs):
+    """the property on every observation of a session: what comes back equals the objects AS THEY ARE at that moment"""
+    for k, (st, o) in enumerate(zip(case.get("steps", []), obs.get("steps", []))):
+        if o is None:
+            continue
+        where = "step %d %s (after %s): " % (k, st[0], [x[0] for x in case["steps"][:k]])
+        if "error" in o:
+            return None                  # a mutating step raised: not a session of well-formed objects; nothing is claimed after it
+        why = None
+        if st[0] == "round":
+            why = _round_why(o["top"], o["cols"], o["dict"], o["restored"])
+            if why is None and "desc" in o and not any(_array_without_element(a) for a in o["cols"]) and o["desc"][0] != o["desc"][1]:
+                why = "the restored schema must report the same column descriptions: %s vs %s" % (o["desc"][0], o["desc"][1])
+            if why is None:
+                for rec, (v1, v2) in zip(case.get("records", []), o.get("validate", [])):
+                    if v1 != v2:
+                        why = "the restored schema must accept and reject the same records: on %s the schema gives %s, the restored %s" % (rec, v1, v2)
+                        break
+        elif st[0] == "json":
+            why = _json_why(o["cur"], o)
+        elif st[0] == "flatten":
+            why = _flat_why(o["before"], o["flat"])
+        if why:
+            return where + why
+    return None
+
+
 def oracle(case, obs):
+    why = _oracle_single(case, obs)
+    if why is None and case.get("steps") and _built(obs) is not None:
+        why = _steps_why(case, obs)
+    return why
+
+
+def _oracle_single(case, obs):
     if case["kind"] == "flat":
         return _oracle_flat(case, obs)
     cols = _built(obs)
@@ -928,7 +1134,20 @@ def to_coq(case, obs):
             _cparse(obs["parse"], I), L.text(case["cls"]), _ckw(case["kw"], I), L.text(obs.get("fresh") or ""),
             _cres(b, lambda a: _ccolumn(a, I)),
             _crobs(b[1], fl, I) if b[0] == "ok" else "(RFull (Raise OtherExn))")
-        return ("flat", term)
+        if not case.get("steps") or b[0] != "ok" or "steps" not in obs:
+            return ("flat", term)
+        ops = []
+        for st, o in zip(case["steps"], obs["steps"]):
+            if o is not None and "error" in o:
+                ops.append("(FAppend FName ANone)")      # a step raised: no model state follows (fails closed)
+                break
+            if st[0] == "set":
+                ops.append("(FSet %s %s)" % (FIELD[st[1]], _cpv(st[2], I)))
+            elif st[0] == "append":
+                ops.append("(FAppend %s %s)" % (FIELD[st[1]], _catom(st[2], I)))
+            elif st[0] == "flatten":
+                ops.append("(FFlatten %s %s)" % (_crobs(b[1], ["ok", {"attrs": o["cur"]}], I), _crobs(b[1], o["flat"], I)))
+        return ("fsess", "(%s, %s)" % (term, L.lst(ops)))
     cols = []
     for spec, o in zip(case["cols"], obs["cols"]):
         b = o["built"]
@@ -948,41 +1167,79 @@ def to_coq(case, obs):
     built = _built(obs)
     od = orest = "(Raise OtherExn)"
     if built is not None:
-        d = obs["dict"]
-        if d[0] == "ok":
-            top = dict((k, v) for k, v in d[1]["top"])
-            rest = [v for k, v in d[1]["top"] if k not in ("name", "aliases", "primary_key")]
-            patches = []
-            ok = len(d[1]["columns"]) == len(built)
-            for cd, a in zip(d[1]["columns"], built):
-                if [k for k, _ in cd] != list(FIELD):
-                    ok = False
-                    break
-                patches.append(_ckw([[k, v] for (k, v), (_, b) in zip(cd, a) if v != b], I))
-            if ok:
-                def o_(k):
-                    return L.opt(_cpv(top[k], I) if k in top else None)
-
-                od = "(Ok (%s, %s, %s, %s, %s))" % (o_("name"), o_("aliases"), L.lst(patches), o_("primary_key"), L.lst(_cpv(v, I) for v in rest))
-            else:
-                od = "(Raise Unmodelled)"
-        else:
-            od = _cres(d, lambda x: "")
-        r = obs["restored"]
-        if r[0] == "ok":
-            top = dict((k, v) for k, v in r[1]["top"])
-            if len(r[1]["cols"]) == len(built) and all(n in top for n in ["name", "aliases", "primary_key"] + SCHEMA_STATS):
-                orest = "(Ok (%s, %s, %s, %s, (%s)))" % (
-                    _cpv(top["name"], I), _cpv(top["aliases"], I),
-                    L.lst(_crobs(a, ["ok", rc], I) for a, rc in zip(built, r[1]["cols"])),
-                    _cpv(top["primary_key"], I), ", ".join(_cpv(top[n], I) for n in SCHEMA_STATS))
-            else:
-                orest = "(Raise Unmodelled)"
-        else:
-            orest = _cres(r, lambda x: "")
+        od, orest = _cod(obs["dict"], built, I), _corest(obs["restored"], built, I)
     top = "(%s)" % ", ".join(_cpv(v, I) for v in [case["name"], case["aliases"], case["pk"]] + case["stats"])
     term = "(%s, %s, %s, %s, %s)" % (_cparse(obs["parse"], I), top, L.lst(cols), od, orest)
-    return ("schema", term)
+    if not case.get("steps") or built is None or "steps" not in obs:
+        return ("schema", term)
+    ops = []
+    for st, o in zip(case["steps"], obs["steps"]):
+        k = st[0]
+        if o is not None and "error" in o:
+            ops.append(POISON)
+            break
+        if k == "col_set":
+            ops.append("(SColSet %s %s %s)" % (L.nat(st[1]), FIELD[st[2]], _cpv(st[3], I)))
+        elif k == "col_append":
+            ops.append("(SColAppend %s %s %s)" % (L.nat(st[1]), FIELD[st[2]], _catom(st[3], I)))
+        elif k == "top_set":
+            ops.append("(STopSet %s %s)" % (TOPF[st[1]], _cpv(st[2], I)))
+        elif k == "top_append":
+            ops.append("(STopAppend %s)" % _catom(st[1], I))
+        elif k == "list_append":
+            ops.append("(SListAppend %s)" % L.nat(st[1]))
+        elif k == "list_pop":
+            ops.append("SListPop")
+        elif k == "scribble":
+            ops.append("SScribble")
+        elif k == "round":
+            if any(not (0 <= i < len(built)) for i in o["refs"]):
+                ops.append(POISON)
+                break
+            bases = [built[i] for i in o["refs"]]
+            ops.append("(SRound %s %s)" % (_cod(o["dict"], bases, I), _corest(o["restored"], bases, I)))
+        elif k == "json":
+            b = built[st[1]]
+            ops.append("(SJson %s %s %s)" % (L.nat(st[1]), _cres(o["json"], lambda j: _cjson(j, I)), _crobs(b, o["back"], I)))
+    return ("ssess", "(%s, %s, %s)" % (term, L.lst(L.nat(i) for i in obs["refs"]), L.lst(ops)))
+
+
+POISON = "(SColAppend 0%nat FName ANone)"      # a step of the session raised: no model state follows (the check fails closed)
+TOPF = {"name": "TName", "aliases": "TAliases", "primary_key": "TPk", "row_count_metric": "TRcm", "row_count_estimate": "TRce",
+        "data_size_metric": "TDsm", "data_size_estimate": "TDse"}
+
+
+def _cod(d, built, I):
+    """observed to_dict, columns as patches over the built attributes of the objects listed (`built`, by position)"""
+    if d[0] != "ok":
+        return _cres(d, lambda x: "")
+    top = dict((k, v) for k, v in d[1]["top"])
+    rest = [v for k, v in d[1]["top"] if k not in ("name", "aliases", "primary_key")]
+    patches = []
+    if len(d[1]["columns"]) != len(built):
+        return "(Raise Unmodelled)"
+    for cd, a in zip(d[1]["columns"], built):
+        if [k for k, _ in cd] != list(FIELD):
+            return "(Raise Unmodelled)"
+        patches.append(_ckw([[k, v] for (k, v), (_, b) in zip(cd, a) if v != b], I))
+
+    def o_(k):
+        return L.opt(_cpv(top[k], I) if k in top else None)
+
+    return "(Ok (%s, %s, %s, %s, %s))" % (o_("name"), o_("aliases"), L.lst(patches), o_("primary_key"), L.lst(_cpv(v, I) for v in rest))
+
+
+def _corest(r, built, I):
+    """observed from_dict(to_dict), columns as patches over the built attributes of the objects listed"""
+    if r[0] != "ok":
+        return _cres(r, lambda x: "")
+    top = dict((k, v) for k, v in r[1]["top"])
+    if len(r[1]["cols"]) != len(built) or not all(n in top for n in ["name", "aliases", "primary_key"] + SCHEMA_STATS):
+        return "(Raise Unmodelled)"
+    return "(Ok (%s, %s, %s, %s, (%s)))" % (
+        _cpv(top["name"], I), _cpv(top["aliases"], I),
+        L.lst(_crobs(a, ["ok", rc], I) for a, rc in zip(built, r[1]["cols"])),
+        _cpv(top["primary_key"], I), ", ".join(_cpv(top[n], I) for n in SCHEMA_STATS))
 
 
 # ----------------------------------------------------------------------------------------------
@@ -1291,6 +1548,10 @@ def exhaustive(tier):
             yield c
         for c in _repeated_name_cases():
             yield c
+        for c in _schema_session_cases():
+            yield c
+        for c in _flat_session_cases():
+            yield c
         for cls in EXTRAS:
             for form in type_forms():
                 spec, _, _ = _column(rng, "q", toggles={"default", "aliases", "description", "nullable", "statistics", "identity", "disposition", "length"}, form=form)
@@ -1350,6 +1611,184 @@ def _repeated_name_cases():
     yield c
 
 
+# ---- sessions: the same objects used again after being changed
+ALL_CLASSES = ["FlatColumn", "FunctionColumn", "ConstantColumn", "SparseColumn", "RLEColumn", "DictionaryColumn"]
+
+
+def _flat_session_cases():
+    """every column class x a text / binary / sized / numeric column: flattened, given another `length` (the row count
+    of ConstantColumn / FunctionColumn, the size limit of the others), flattened again, an alias appended in place, a
+    longer default assigned, ... - every flattening must keep the listed attributes of the object as it then is"""
+    k = 0
+    for cls in ALL_CLASSES:
+        for tname, d0, d1 in (("VARCHAR", S_("hello, world!"), S_("a much longer default than before \u00e9\u00e8")),
+                              ("BLOB", ["y", [0, 1, 2, 3, 4, 5]], ["y", list(range(40, 60))]),
+                              ("VARCHAR[4]", S_("abcdefgh"), S_("xyz")),
+                              ("INTEGER", S_("12345678"), None)):
+            k += 1
+            kw = [["name", S_("greeting")], ["type", S_(tname)], ["default", d0], ["identity", S_("%016x" % (0xF16 * 2 ** 32 + k))]]
+            if "[" not in tname:
+                kw.append(["length", I_(1000)])
+            steps = [["flatten"], ["set", "length", I_(3)], ["flatten"], ["append", "aliases", S_("g")], ["flatten"]]
+            if d1 is not None:
+                steps += [["set", "default", d1], ["flatten"]]
+            steps += [["set", "length", I_(2)], ["flatten"], ["set", "description", S_("later")], ["set", "nullable", ["b", False]],
+                      ["set", "null_count", I_(0)], ["append", "origin", S_("t")], ["flatten"], ["set", "length", ["n"]], ["flatten"]]
+            yield {"kind": "flat", "cls": cls, "focus": None, "kw": kw, "steps": steps}
+
+
+def _list_valued(kw, field):
+    """the attribute is a list on the built object (declared default: an empty list) unless the keywords say otherwise"""
+    d = dict((a, b) for a, b in kw)
+    return field not in d or d[field][0] == "l"
+
+
+def _random_flat_session(rng):
+    case = _random_flat(rng)
+    kw = case["kw"]
+    t = dict((a, b) for a, b in kw).get("type")
+    base = t[1].upper().split("[")[0] if t is not None and t[0] == "s" else (t[1] if t is not None and t[0] == "ty" else None)
+    steps = []
+    for _ in range(rng.choice([2, 3, 4, 6])):
+        r = rng.random()
+        if r < 0.3:
+            steps.append(["set", "length", rng.choice([I_(0), I_(1), I_(2), I_(3), I_(5), I_(1000), ["n"]])])
+        elif r < 0.4:
+            steps.append(["set", rng.choice(["lowest_value", "highest_value"]), rng.choice(STATS)])
+        elif r < 0.5:
+            steps.append(["set", "description", rng.choice([S_("later"), ["n"], S_("d\u00e9sc")])])
+        elif r < 0.6:
+            steps.append(["set", "nullable", ["b", rng.random() < 0.5]])
+        elif r < 0.75 and _list_valued(kw, "aliases"):
+            steps.append(["append", "aliases", S_(rng.choice(["g", "h", "al\u00efas"]))])
+        elif r < 0.8 and _list_valued(kw, "origin"):
+            steps.append(["append", "origin", S_("t9")])
+        elif base == "VARCHAR":
+            steps.append(["set", "default", S_(rng.choice(CUT_TEXTS + ["a default longer than any row count in use here"]))])
+        elif base == "BLOB":
+            steps.append(["set", "default", ["y", list(rng.choice(CUT_TEXTS).encode("utf-8"))]])
+        else:
+            steps.append(["set", "null_count", rng.choice([I_(0), I_(3), ["n"]])])
+        if rng.random() < 0.6:
+            steps.append(["flatten"])
+    steps.append(["flatten"])
+    case["steps"] = steps
+    return case
+
+
+def _planets():
+    return [[["name", S_("id")], ["type", S_("INTEGER")], ["nullable", ["b", False]], ["identity", S_("col-id")]],
+            [["name", S_("name")], ["type", S_("VARCHAR[20]")], ["default", S_("unnamed")], ["aliases", ["l", [S_("title")]]], ["identity", S_("col-name")]],
+            [["name", S_("mass")], ["type", S_("DECIMAL(30,6)")], ["default", S_("1.5")], ["identity", S_("col-mass")]],
+            [["name", S_("moons")], ["type", S_("ARRAY<VARCHAR>")], ["identity", S_("col-moons")]],
+            [["name", S_("found")], ["type", S_("DATE")], ["disposition", S_("age")], ["identity", S_("col-found")]],
+            [["name", S_("blob")], ["type", S_("BLOB[8]")], ["default", ["y", [0, 1]]], ["identity", S_("col-blob")]],
+            [["name", S_("any")], ["type", S_("VARIANT")], ["identity", S_("col-any")]]]
+
+
+def _schema_session_cases():
+    """one live schema saved again and again while it is being changed: in-place appends to list attributes of a column
+    and of the schema, assignments, a columns list that grows and shrinks, a column object listed twice, a caller
+    scribbling on the dictionary it got - every round trip must give the schema AS IT IS at that moment"""
+    recs = [[["id", I_(1)], ["name", S_("Earth")], ["moons", ["l", [S_("Moon")]]], ["any", I_(1)]],
+            [["id", I_(2)], ["name", ["n"]], ["mass", ["n"]], ["moons", ["n"]], ["found", ["n"]], ["blob", ["n"]], ["any", ["n"]]],
+            [["id", ["n"]], ["name", S_("x")], ["any", S_("y")]]]
+    c = _one(_planets(), aliases=["l", [S_("p")]], records=recs)
+    c["steps"] = [["round"], ["col_append", 1, "aliases", S_("label")], ["top_append", S_("worlds")], ["round"],
+                  ["top_set", "primary_key", S_("id")], ["col_set", 1, "nullable", ["b", False]], ["col_set", 1, "description", S_("what the planet is called")],
+                  ["col_set", 1, "null_count", I_(0)], ["col_set", 1, "lowest_value", S_("Earth")], ["col_set", 1, "highest_value", S_("Venus")],
+                  ["col_set", 2, "null_count", I_(3)], ["round"], ["col_append", 2, "aliases", S_("weight")], ["round"], ["json", 1], ["json", 2],
+                  ["col_append", 1, "aliases", S_("again")], ["json", 1]]
+    yield c
+    c = _one(_planets(), records=recs)
+    c["steps"] = [["col_append", 0, "origin", S_("t")], ["round"], ["scribble"], ["round"], ["list_append", 0], ["round"], ["list_pop"], ["list_pop"],
+                  ["round"], ["top_set", "name", S_("renamed")], ["top_set", "aliases", ["l", [S_("x")]]], ["top_append", S_("y")], ["round"],
+                  ["col_set", 3, "aliases", ["l", [S_("satellites")]]], ["col_append", 3, "aliases", S_("more")], ["scribble"], ["round"]]
+    yield c
+    p = _planets()
+    c = _one([p[0], p[1], p[0]], pk=S_("id"), records=[[["id", I_(1)]], [["id", ["n"]]]])
+    c["cols"][2]["same_as"] = 0
+    c["steps"] = [["round"], ["col_append", 0, "aliases", S_("k")], ["round"], ["col_set", 0, "nullable", ["b", True]], ["round"], ["json", 0],
+                  ["list_append", 1], ["col_append", 1, "aliases", S_("twice")], ["round"]]
+    yield c
+    c = _one(_planets()[:3])
+    c["steps"] = [["top_set", "row_count_metric", I_(5)], ["round"], ["top_set", "data_size_estimate", I_(7)], ["top_set", "row_count_metric", ["n"]], ["round"]]
+    yield c
+    for o in range(7):              # the very first change after the first save is an in-place append, column by column
+        c = _one(_planets(), records=recs[:1])
+        c["steps"] = [["col_append", o, "aliases", S_("z%d" % o)], ["round"], ["json", o]]
+        yield c
+    c = _one(_planets()[:2])
+    c["steps"] = [["top_append", S_("only-the-schema")], ["round"], ["list_pop"], ["round"], ["list_pop"], ["round"]]
+    yield c
+
+
+def _canon_of(cols):
+    return [c.get("same_as") if c.get("same_as") is not None else j for j, c in enumerate(cols)]
+
+
+def _random_schema_session(rng):
+    case = _random_schema(rng)
+    cols = case["cols"]
+    canon = _canon_of(cols)
+    objs = sorted(set(canon))
+    n = len(cols)
+    steps = []
+    for _ in range(rng.choice([2, 3, 4, 6, 8])):
+        r = rng.random()
+        o = rng.choice(objs)
+        kw = cols[o]["kw"]
+        if r < 0.22 and _list_valued(kw, "aliases"):
+            steps.append(["col_append", o, "aliases", S_(rng.choice(["extra", "al\u00efas", "x"]))])
+        elif r < 0.27 and _list_valued(kw, "origin"):
+            steps.append(["col_append", o, "origin", S_("t9")])
+        elif r < 0.37:
+            steps.append(["top_append", S_(rng.choice(["worlds", "w2"]))])
+        elif r < 0.5:
+            f = rng.choice(["nullable", "description", "null_count", "lowest_value", "highest_value", "aliases"])
+            v = {"nullable": ["b", rng.random() < 0.5], "description": rng.choice([S_("later"), ["n"]]), "null_count": rng.choice([I_(0), I_(3), ["n"]]),
+                 "lowest_value": rng.choice(STATS), "highest_value": rng.choice(STATS), "aliases": ["l", [S_("replaced")]]}[f]
+            steps.append(["col_set", o, f, v])
+        elif r < 0.6:
+            t = rng.choice(["name", "primary_key", "row_count_metric", "row_count_estimate", "data_size_metric", "data_size_estimate", "aliases"])
+            v = (S_("renamed") if t == "name" else rng.choice([S_("id"), ["n"]]) if t == "primary_key" else ["l", [S_("fresh")]] if t == "aliases"
+                 else rng.choice([I_(10), ["n"], I_(0)]))
+            steps.append(["top_set", t, v])
+        elif r < 0.67:
+            steps.append(["list_append", o])
+            n += 1
+        elif r < 0.72 and n > 0:
+            steps.append(["list_pop"])
+            n -= 1
+        elif r < 0.8:
+            steps.append(["scribble"])
+        elif r < 0.9:
+            steps.append(["json", o])
+        else:
+            steps.append(["round"])
+        if rng.random() < 0.45:
+            steps.append(["round"])
+    steps.append(["round"])
+    # an append needs a list: once an attribute was assigned a list it is one, once None it is not - keep appends sound
+    sound, is_list = [], {}
+    for st in steps:
+        if st[0] == "col_set" and st[2] in ("aliases", "origin"):
+            is_list[(st[1], st[2])] = st[3][0] == "l"
+        if st[0] == "col_append" and not is_list.get((st[1], st[2]), _list_valued(cols[st[1]]["kw"], st[2])):
+            continue
+        sound.append(st)
+    top_list = case["aliases"][0] == "l"
+    out = []
+    for st in sound:
+        if st[0] == "top_set" and st[1] == "aliases":
+            top_list = st[2][0] == "l"
+        if st[0] == "top_append" and not top_list:
+            continue
+        out.append(st)
+    case["steps"] = out
+    return case
+
+
 def _focus_cases(rng):
     """the guarded attributes / input classes, asked on their own"""
     out = []
@@ -1381,14 +1820,38 @@ def generate(rng, tier):
         yield _random_schema(rng)
     for i in range(n_flat):
         yield _random_flat(rng)
+    n_ss, n_fs = (70, 40) if tier == "quick" else (1400, 800)
+    for i in range(n_ss):
+        yield _random_schema_session(rng)
+    for i in range(n_fs):
+        yield _random_flat_session(rng)
 
 
 def search(rng):
     while True:
-        yield _random_schema(rng) if rng.random() < 0.8 else _random_flat(rng)
+        r = rng.random()
+        yield (_random_schema(rng) if r < 0.55 else _random_flat(rng) if r < 0.7 else _random_schema_session(rng) if r < 0.9 else _random_flat_session(rng))
 
 
 def shrink(case):
+    if case.get("steps"):                # a session: fewer operations first (positions of the objects stay as they are)
+        st = case["steps"]
+        yield {k: v for k, v in case.items() if k != "steps"}
+        for j in range(len(st) - 1, 0, -1):
+            yield dict(case, steps=st[:j])
+        for j in range(len(st)):
+            yield dict(case, steps=st[:j] + st[j + 1:])
+        if case["kind"] == "schema":     # ... then fewer columns: a column no operation names and nothing refers to
+            cols = case["cols"]
+            used = {x[1] for x in st if x[0] in ("col_set", "col_append", "list_append", "json")} | {c["same_as"] for c in cols if c.get("same_as") is not None}
+            for i in range(len(cols) - 1, -1, -1):
+                if i in used or len(cols) == 1:
+                    continue
+                sh = lambda o: o - 1 if o > i else o
+                rest = [dict(c, same_as=sh(c["same_as"])) if c.get("same_as") is not None else c for c in cols[:i] + cols[i + 1:]]
+                steps = [[x[0], sh(x[1])] + x[2:] if x[0] in ("col_set", "col_append", "list_append", "json") else x for x in st]
+                yield dict(case, cols=rest, steps=steps, pk=["n"], records=[])
+        return
     if case["kind"] == "schema":
         cols = case["cols"]
         if len(cols) > 1:
@@ -1489,8 +1952,8 @@ def nontrivial_key(case, obs):
     if cols is None:
         return None
     if case["kind"] == "flat":
-        return "flat:" + case["cls"] + repr([x for x in case["kw"] if x[0] != "identity"])
-    return "schema:" + repr(([[x for x in c["kw"] if x[0] != "identity"] for c in case["cols"]], case["aliases"], case["pk"], case["stats"], case.get("focus")))
+        return "flat:" + case["cls"] + repr([x for x in case["kw"] if x[0] != "identity"]) + repr(case.get("steps") or "")
+    return "schema:" + repr(case.get("steps") or "") + repr(([[x for x in c["kw"] if x[0] != "identity"] for c in case["cols"]], case["aliases"], case["pk"], case["stats"], case.get("focus")))
 
 
 def _form_of(kw):
@@ -1511,6 +1974,13 @@ def classify(case, obs):
     yield "kind:" + case["kind"] + ((":" + case["cls"]) if case["kind"] == "flat" else "")
     if case.get("focus"):
         yield "focus:" + case["focus"]
+    if case.get("steps"):
+        yield "session:" + case["kind"]
+        for k in sorted(set(st[0] for st in case["steps"])):
+            yield "step:" + k
+        if any(a[0] in ("col_append", "top_append", "append") and any(b[0] in ("round", "json", "flatten") for b in case["steps"][i + 1:])
+               and any(b[0] in ("round", "json", "flatten") for b in case["steps"][:i]) for i, a in enumerate(case["steps"])):
+            yield "session:in-place-append-between-two-observations"
     specs = case["cols"] if case["kind"] == "schema" else [{"kw": case["kw"]}]
     if case["kind"] == "schema":
         yield "columns=%d" % len(specs)
@@ -1544,26 +2014,30 @@ LEVEL_TEXT = ("Machine-checked Coq theorems: for every well-formed column (any v
               "validate (Model/C05) and the description of the restored schema coincide with the original's. The type attribute of untyped columns is excluded "
               "(known finding F-C16-4b) and refuted on a witness; the schema's four statistics are included. For BLOB[n] / VARCHAR[n] the length cut of the default is modelled "
               "concretely (bytes vs characters, UTF-8 from Model/C08) and proved idempotent, so the default premise is proved for these types; the restored schema keeps every "
-              "column in place whether or not names repeat. The model is tied to orso/schema.py by running real schemas over every type-name form x each "
+              "column in place whether or not names repeat. Object identity and mutation are explicit (heap of column objects, columns list as references, assignments, "
+              "in-place appends, repeated saves): for every operation sequence the round trip and the flattening taken now depend on the current values only, and "
+              "flattening ignores every attribute outside the listed thirteen. The model is tied to orso/schema.py by running real schemas over every type-name form x each "
               "optional attribute (and random combinations) through all five operations and evaluating the model on the same inputs inside Coq; an "
               "attribute-by-attribute, type-strict oracle on the implementation supplies replayable failing inputs.")
 LEVEL_NOTE = ("Trusted: Coq kernel + vm_compute; the hand-written model; Model/C06 from_name for the re-parse of type names (ASCII); OrsoTypes.parse (C07) and "
               "orjson's leaf serialisation enter as section parameters with the round-trip hypotheses stated in the theorems, instantiated in the correspondence "
               "by the results observed on the real functions; the default hypothesis is evaluated in Coq on every built column (default_fixed) and observed BLOB / VARCHAR "
-              "casts are compared with the concrete sub-model text_cast (parse_conforms); a negative length keyword is outside the claim (C16_negative_length_refuted). Partial: type of untyped columns (F-C16-4b); known findings F-C16-8 (ARRAY without element type) and F-C16-10 "
+              "casts are compared with the concrete sub-model text_cast (parse_conforms); a negative length keyword is outside the claim (C16_negative_length_refuted). Sessions: what a caller's scribbling does to a returned dictionary is not modelled (model no-op); validate / whole-schema description / == at each save are oracle-only. Partial: type of untyped columns (F-C16-4b); known findings F-C16-8 (ARRAY without element type) and F-C16-10 "
               "(values JSON cannot carry back) are guarded by explicit input classes (see notes/C16.md). The attribute `expectations` is not among those the "
               "property enumerates: the oracle does not compare it (observation: Expectation objects come back as dictionaries); the model still covers it. NaN values are not generated. validate is compared by the oracle on a record battery, its model is C05's.")
 DESIGN_REF = "DESIGN.md section 8, C16"
 COQ_IMPORTS = "From Orso Require Import Base.C16_Defs Gen.C16_Fields Model.C16."
-COQ_CHECKS = {"schema": "c16_schema_check", "flat": "c16_flat_check"}
-COQ_SHOW = {"schema": "c16_schema_show", "flat": "c16_flat_show"}
+COQ_CHECKS = {"schema": "c16_schema_check", "flat": "c16_flat_check", "ssess": "c16_ssess_check", "fsess": "c16_fsess_check"}
+COQ_SHOW = {"schema": "c16_schema_show", "flat": "c16_flat_show", "ssess": "c16_ssess_show", "fsess": "c16_fsess_show"}
 RULE = ("schemas of 1-4 FlatColumns built through the real constructor from keyword arguments: type given as every name form (member names in any letter case, "
         "enum members, DECIMAL(p,s), VARCHAR[n], BLOB[n], ARRAY<T>, untyped, 0/VARIANT, a few invalid names) x optional attributes (aliases, default drawn from "
         "per-type pools incl. Decimal/bytes/date/text-to-parse, description, disposition by member and by value, non-nullable, statistics, identity, length, "
         "precision, scale, element type, origin, expectations) x schema aliases / primary key / statistics; exhaustive one-column sweep of every form x each "
         "attribute alone and all together; VARCHAR[n] / BLOB[n] (n = 1..5, 8, by name and by the length keyword) x non-ASCII defaults (1- to 4-byte characters) given as text and as "
         "bytes; schemas whose columns share a name (renamed column, equal twin, the same object listed twice); all six column classes for to_flatcolumn; a case is non-trivial when every column definition was accepted; "
-        "distinct by the case without its random identities")
+        "sessions: the single-shot observations first, then operations on the same live objects (assign an attribute, append in place to a list attribute of a column or of "
+        "the schema, grow / shrink the columns list, scribble on the returned dictionary) interleaved with to_dict + from_dict, to_json + from_json and to_flatcolumn (all six classes; "
+        "length / default assigned after construction); distinct by the case without its random identities")
 TRUSTED = [
     "C16 model (coq/Model/C16.v): a column is its attribute dictionary over the regenerated field list; FlatColumn.__init__ as collect/normalise steps",
     "Model/C06.v from_name (re-parse of type names, ASCII text), Model/C05.v validate (the restored schema is projected onto C05's column view), Model/C08.v utf8_encode / utf8_decode (the BLOB / VARCHAR length cut)",
